@@ -239,3 +239,95 @@ Proof.
       try (vm_compute; intros e He; repeat (destruct He as [He|He]; [subst e; cbn; auto 10|]); destruct He). }
   vm_compute. repeat split; reflexivity.
 Qed.
+
+(* ================================================================================================================
+   Reliable.sendOneFrame (Model/SendOne.v, Proofs/SendOneProofs.v): the step between "the sender hands a frame to
+   the muxer" (what c08_emitted_from_buffer and the liveness theorem speak about) and the muxer's queues.  It
+   suppresses empty acknowledgement frames that repeat the last transmitted (ackNo, frameNo) pair.  The theorems
+   say that this suppression can only ever withhold a frame that carries nothing. *)
+From Hop Require Import SendOne SendOneProofs.
+
+(* ---- in EVERY state of the suppression counters, a frame of the byte stream (payload or FIN) or a
+   retransmission — everything a step of the sender model emits — is handed to the muxer: same frame number,
+   on the priority queue iff it is a retransmission, stamped with the receive window's current ackNo *)
+Theorem c08_stream_frames_never_suppressed : forall (st : so_state) (c : so_call),
+  so_stream_frame c = true ->
+  exists ackflag, snd (send_one_frame st c) = Some (sc_retx c, sc_ack c, ackflag, sc_no c).
+Proof. exact stream_frame_sent. Qed.
+Print Assumptions c08_stream_frames_never_suppressed.
+
+(* ---- after every call — hence after every history of calls — the last acknowledgement number handed to the
+   muxer is the receive window's current one: what was withheld repeated what the peer had already been sent *)
+Theorem c08_transmitted_ack_is_current : forall (cs : list so_call) (st : so_state) (c : so_call),
+  so_last_ack (fst (so_run st (cs ++ [c]))) = sc_ack c.
+Proof. exact ack_current_run. Qed.
+Print Assumptions c08_transmitted_ack_is_current.
+
+(* ---- suppression is bounded: in every history from the initial state the counter stays <= 10, and from any
+   such state at most 10 - unsend calls in a row hand nothing to the muxer — the 11th repetition of an
+   acknowledgement is transmitted again (this is what repairs a lost acknowledgement on an otherwise idle tube) *)
+Theorem c08_ack_suppression_bounded : forall (before cs : list so_call),
+  let st := fst (so_run so_init before) in
+  so_unsend st <= 10 /\
+  (Forall (fun o => o = None) (snd (so_run st cs)) -> N.of_nat (List.length cs) + so_unsend st <= 10).
+Proof.
+  intros before cs st.
+  assert (B: so_unsend st <= 10) by (apply unsend_bound; cbn; discriminate).
+  split; [exact B|]. apply suppressed_run_short. exact B.
+Qed.
+Print Assumptions c08_ack_suppression_bounded.
+
+Example c08_ack_suppression_example :
+  let idle := {| sc_ack := 7; sc_no := 3; sc_dlen := 0; sc_ackflag := false; sc_fin := false; sc_resp := false; sc_retx := false |} in
+  map (fun o => match o with Some _ => true | None => false end) (snd (so_run so_init (repeat idle 13)))
+  = [true; false; false; false; false; false; false; false; false; false; false; true; false].
+Proof. vm_compute. reflexivity. Qed.
+
+(* ---- windowSize = uint16(cwndSize) (premise (a) of c08_liveness_fair_lossless_rto_rounds_partial): recvAck clamps
+   cwndSize below at 10 but not above, and the conversion wraps at 65536 — "windowSize >= 1 after every
+   acknowledgement" is false as a statement about single steps: at cwndSize = 65536 the window is 0 and the
+   timer case transmits nothing although a frame is buffered.  (Such a cwndSize needs about 2.1*10^9 acknowledged
+   frames of more than 1000 bytes without a window cut: docs/C08.md.  Replayed on the real sender with an
+   injected cwndSize: driver class window-conversion-injected-cwnd.) *)
+From Hop Require Import TubesFloat.
+Open Scope N_scope.
+Theorem c08_window_size_wraps_to_zero_refuted :
+  exists c : float, fl_ltb c f10 = false /\ window_after_ack c = 0 /\
+    forall s : sender, s_wsize s = window_after_ack c -> s_rtoc s = 0%Z -> ~ tick_sends s.
+Proof.
+  exists (fl_of_Z 65536). split; [vm_compute; reflexivity|]. split; [vm_compute; reflexivity|].
+  intros s W R. unfold tick_sends, frames_to_send. rewrite W, R.
+  replace (window_after_ack (fl_of_Z 65536)) with 0 by (vm_compute; reflexivity).
+  change (Z.of_N 0) with 0%Z. change (0 <? 0)%Z with false. cbv iota.
+  destruct (Z.of_nat (List.length (s_frames s)) <? 0 + 0)%Z eqn:E.
+  - apply Z.ltb_lt in E. lia.
+  - change (0 <? 0)%Z with false. cbv iota. lia.
+Qed.
+Print Assumptions c08_window_size_wraps_to_zero_refuted.
+
+(* ---- composition with the close handshake (C16): the `fin` result of receiver.receive — finProcessed, the
+   signal on which Reliable.receive moves the tube towards closed (initiated -> closeWait, finWait -> closing /
+   timeWait; the input f_inorder of Model/Shutdown.v) — is reported, in ANY history of arrivals and reads
+   (premise history_ok as in c08_reassembly_prefix), only by an arrival after which all n data frames and the FIN
+   have been consumed in order and everything written is with the reader or buffered for it.  With
+   c08_reassembly_prefix (EOF only when the reader has the whole stream) and C16's handshake theorems (which take
+   f_inorder as an arbitrary input) this gives: end-of-stream and the closing transitions it triggers happen
+   only after all bytes written before the close were delivered. *)
+From Hop Require Import RecvFinProofs.
+Theorem c08_fin_processed_only_after_all_bytes : forall (chunks : list bytes) (evs : list revent) (a : arrival),
+  nchunks chunks + two32 + 2000 < two64 ->
+  history_ok recv_init chunks (evs ++ [EArr a]) ->
+  let '(r, out, _) := deliver recv_init chunks evs [] false in
+  let '(r', fin, _) := receive r (frame_of chunks a) in
+  fin = true ->
+  consumed r' = S (List.length chunks) /\ out ++ r_buf r' = List.concat chunks.
+Proof. intros chunks evs a Hn. exact (fin_processed_only_after_all_bytes chunks Hn evs a). Qed.
+Print Assumptions c08_fin_processed_only_after_all_bytes.
+
+(* non-vacuity: in the example history the FIN arrives early (nothing reported), the last missing data frame
+   reports fin *)
+Example c08_fin_processed_example :
+  history_ok recv_init ex_chunks ([EArr (AData 3); EArr (AData 1); EArr AFin] ++ [EArr (AData 2)]) /\
+  snd (fst (receive (fst (fst (deliver recv_init ex_chunks [EArr (AData 3); EArr (AData 1)] [] false))) (frame_of ex_chunks AFin))) = false /\
+  snd (fst (receive (fst (fst (deliver recv_init ex_chunks [EArr (AData 3); EArr (AData 1); EArr AFin] [] false))) (frame_of ex_chunks (AData 2)))) = true.
+Proof. vm_compute. repeat split; try reflexivity; try discriminate. Qed.
